@@ -827,8 +827,128 @@ static void stage_api(void) {
   for (int i = 0; i < 8; i++) { char nm[48]; static const char* vn[] = {"ints_build", "ints_new_set", "handleless_strings", "set_handle", "build_string_z", "shared_subitems", "spare_capacity", "retagged"}; snprintf(nm, sizeof nm, "variants.%s", vn[i]); vh_count_dyn(nm, g_built_variants[i]); }
 }
 
+/* ---- stage "giant" (C07, C20): items whose encoding really exceeds 4 GiB, serialized into a real buffer. A byte count kept
+ * in 32 bits anywhere on the way (a running offset, a remaining-room value, a chunk length) wraps here and nowhere else.
+ * The tree shares one sub-item thousands of times, so only the output costs memory (about 4.5 GiB of touched pages; the
+ * case is skipped, and counted as skipped, when the machine has less than 12 GiB available). */
+#include <sys/mman.h>
+#include <unistd.h>
+static void giant_case(int kind) {
+  uint8_t desc[2] = {'G', (uint8_t)kind};
+  if (!vh_case(desc, 2)) return;
+  long av = sysconf(_SC_AVPHYS_PAGES), ps = sysconf(_SC_PAGESIZE);
+  if (av < 0 || ps < 0 || (unsigned long long)av * (unsigned long long)ps < (12ull << 30)) { VH_COUNT("giant.skipped_less_than_12GiB_available", 1); return; }
+  static const char* const kn[] = {"chunked byte string of 4100 x 1 MiB chunks", "chunked text string of 4100 x 1 MiB chunks", "definite array of 70000 x 64 KiB byte strings", "definite byte string of 2^32+5 bytes", "definite map of 35000 pairs with 128 KiB text values"};
+  size_t unit = kind <= 1 ? (size_t)1 << 20 : kind == 2 ? 65536 : kind == 4 ? 131072 : 0;
+  size_t count = kind <= 1 ? 4100 : kind == 2 ? 70000 : kind == 4 ? 35000 : 0;
+  cbor_item_t* it = NULL;
+  cbor_item_t* sub = NULL;
+  uint8_t* zero = NULL;
+  size_t zlen = ((size_t)1 << 32) + 5;
+  unsigned char* payload = NULL;
+  if (kind != 3) {
+    payload = malloc(unit);
+    for (size_t i = 0; i < unit; i++) payload[i] = (uint8_t)('a' + (i * 7 + i / 251) % 26);
+    sub = (kind == 1 || kind == 4) ? cbor_build_stringn((const char*)payload, unit) : cbor_build_bytestring(payload, unit);
+    if (!sub) vh_die("giant: cannot build the shared sub-item");
+  }
+  bool ok = true;
+  switch (kind) {
+    case 0: case 1:
+      it = kind == 0 ? cbor_new_indefinite_bytestring() : cbor_new_indefinite_string();
+      for (size_t i = 0; i < count && ok; i++) ok = kind == 0 ? cbor_bytestring_add_chunk(it, sub) : cbor_string_add_chunk(it, sub);
+      break;
+    case 2:
+      it = cbor_new_definite_array(count);
+      for (size_t i = 0; i < count && ok; i++) ok = cbor_array_push(it, sub);
+      break;
+    case 3:
+      zero = mmap(NULL, zlen, PROT_READ, MAP_PRIVATE | MAP_ANONYMOUS | MAP_NORESERVE, -1, 0);
+      if (zero == MAP_FAILED) { VH_COUNT("giant.skipped_no_address_space", 1); return; }
+      it = cbor_new_definite_bytestring();
+      cbor_bytestring_set_handle(it, zero, zlen);
+      break;
+    default: {
+      it = cbor_new_definite_map(count);
+      cbor_item_t* key = cbor_build_uint8(7);
+      for (size_t i = 0; i < count && ok; i++) ok = cbor_map_add(it, (struct cbor_pair){.key = key, .value = sub});
+      cbor_decref(&key);
+    }
+  }
+  if (!it || !ok) vh_die("giant: building the %s failed", kn[kind]);
+  /* the exact mathematical size */
+  size_t want = kind <= 1 ? 1 + count * (5 + unit) + 1 : kind == 2 ? 5 + count * (5 + unit) : kind == 3 ? 9 + zlen : 3 + count * (1 + 5 + unit);
+  size_t size = cbor_serialized_size(it);
+  if (size != want) vh_violation("size-wrong", "cbor_serialized_size of a %s is %zu, the exact total is %zu", kn[kind], size, want);
+  size_t cap = want + 4096;
+  uint8_t* out = mmap(NULL, cap, PROT_READ | PROT_WRITE, MAP_PRIVATE | MAP_ANONYMOUS | MAP_NORESERVE, -1, 0);
+  if (out == MAP_FAILED) { VH_COUNT("giant.skipped_no_address_space", 1); }
+  else {
+    memset(out + want, 0x5e, 64);
+    size_t w = cbor_serialize(it, out, want + 32);
+    if (w != want) vh_violation("wrong-return", "cbor_serialize of a %s (%zu bytes) into a buffer of %zu returned %zu", kn[kind], want, want + 32, w);
+    /* layout */
+    size_t pos = 0;
+    const char* bad = NULL;
+    size_t badpos = 0;
+#define EXPECT(b) do { if (!bad && out[pos] != (uint8_t)(b)) { bad = "byte"; badpos = pos; } pos++; } while (0)
+    if (kind <= 1) {
+      EXPECT(kind == 0 ? 0x5f : 0x7f);
+      for (size_t i = 0; i < count && !bad; i++) {
+        EXPECT(kind == 0 ? 0x5a : 0x7a); EXPECT(unit >> 24); EXPECT(unit >> 16); EXPECT(unit >> 8); EXPECT(unit);
+        if (!bad && memcmp(out + pos, payload, unit)) { bad = "chunk payload"; badpos = pos; }
+        pos += unit;
+      }
+      EXPECT(0xff);
+    } else if (kind == 2) {
+      EXPECT(0x9a); EXPECT(count >> 24); EXPECT(count >> 16); EXPECT(count >> 8); EXPECT(count);
+      for (size_t i = 0; i < count && !bad; i++) {
+        EXPECT(0x5a); EXPECT(unit >> 24); EXPECT(unit >> 16); EXPECT(unit >> 8); EXPECT(unit);
+        if (!bad && memcmp(out + pos, payload, unit)) { bad = "member payload"; badpos = pos; }
+        pos += unit;
+      }
+    } else if (kind == 3) {
+      EXPECT(0x5b); for (int sh = 56; sh >= 0; sh -= 8) EXPECT(zlen >> sh);
+      for (size_t i = 0; i < zlen && !bad; i += 4096) if (out[pos + i] != 0) { bad = "payload"; badpos = pos + i; }
+      if (!bad && out[pos + zlen - 1] != 0) { bad = "payload"; badpos = pos + zlen - 1; }
+      pos += zlen;
+    } else {
+      EXPECT(0xb9); EXPECT(count >> 8); EXPECT(count);
+      for (size_t i = 0; i < count && !bad; i++) {
+        EXPECT(0x07);
+        EXPECT(0x7a); EXPECT(unit >> 24); EXPECT(unit >> 16); EXPECT(unit >> 8); EXPECT(unit);
+        if (!bad && memcmp(out + pos, payload, unit)) { bad = "value payload"; badpos = pos; }
+        pos += unit;
+      }
+    }
+#undef EXPECT
+    if (bad) vh_violation("bytes-differ", "cbor_serialize of a %s: wrong %s at output offset %zu (of %zu)", kn[kind], bad, badpos, want);
+    for (size_t i = 32; i < 64; i++) if (out[want + i] != 0x5e) { vh_violation("write-beyond-buffer", "byte %zu beyond the %zu-byte buffer was modified", i - 32, want + 32); break; }
+    /* one byte short: refused */
+    size_t w2 = cbor_serialize(it, out, want - 1);
+    if (w2 != 0) vh_violation("wrong-return", "cbor_serialize of a %s into a buffer one byte short returned %zu", kn[kind], w2);
+    munmap(out, cap);
+    VH_COUNT("giant.items_serialized", 1);
+    VH_MAX("giant.max_encoding_bytes", want);
+  }
+  if (kind == 3) { cbor_bytestring_set_handle(it, NULL, 0); munmap(zero, zlen); }
+  cbor_decref(&it);
+  if (sub) cbor_decref(&sub);
+  free(payload);
+  if (ta_live_count()) { vh_violation("leak", "%zu block(s) left", ta_live_count()); ta_forget_all(); }
+  vh_nontrivial(vh_hash(desc, 2));
+}
+static void stage_giant(void) {
+  for (int kind = 0; kind < 5; kind++) {
+    if (kind % O.nshards != O.shard) continue;
+    if (!O.thorough && (kind == 1 || kind == 4)) continue;
+    giant_case(kind);
+  }
+}
+
 static void setup(void) {
   P = atoi(O.prop + 1);
+  if (P == 20 && !strcmp(O.stage, "giant")) P = 7; /* the giant items are C20's business as much as C07's */
   if (P != 3 && P != 7 && P != 11) vh_die("driver ser: --prop must be C03, C07 or C11");
   LIM = (size_t)O.L;
   ref_selftest();
@@ -840,6 +960,7 @@ static void ser_run(void) {
   if (!strcmp(O.stage, "dec")) stage_dec();
   else if (!strcmp(O.stage, "api")) stage_api();
   else if (!strcmp(O.stage, "enc") && P == 7) c07_encoders();
+  else if (!strcmp(O.stage, "giant") && P == 7) stage_giant();
   else vh_die("driver ser: unknown stage '%s'", O.stage);
   if (P == 3) vh_set_rule("each case is an item tree (returned by cbor_load for an enumerated/generated input, or assembled by construction calls alongside a shadow tree); its serialization is compared byte for byte with the reference encoder's output for the shadow tree, reloaded, compared, and serialized again; non-trivial = a tree was obtained; distinct by 64-bit hash of the input / generator index");
   else if (P == 7) vh_set_rule("each tree case runs cbor_serialize for every buffer size 0..size+2 in exactly-sized heap blocks (ASan red zones) plus sentinel-image buffers, and cbor_serialize_alloc; each encoder case is an (encoder, value, n) triple with n = 0..12 and 18 larger sizes up to 65536, the buffer pre-filled with a sentinel and the whole tail beyond the returned length compared afterwards; non-trivial = a tree was obtained / the encoder was called; distinct by hash");
@@ -850,6 +971,7 @@ static void ser_exec(const uint8_t* d, size_t n) {
   setup();
   if (n >= 1 && d[0] == 'D') { dec_case(d + 1, n - 1); return; }
   if (n == 17 && d[0] == 'A') { uint64_t u = 0, s = 0; for (int i = 0; i < 8; i++) { u = u << 8 | d[1 + i]; s = s << 8 | d[9 + i]; } api_case(u, s); return; }
+  if (n == 2 && d[0] == 'G') { giant_case(d[1]); return; }
   if (n == 11 && d[0] == 'E') { uint64_t v = 0; for (int i = 0; i < 8; i++) v = v << 8 | d[2 + i]; c07_enc_case(d[1], v, d[10]); return; }
   printf("unrecognised descriptor\n");
 }
